@@ -12,6 +12,8 @@ def IsBytes (s : Bytes) : Prop := ∀ b ∈ s, b < 256
 
 instance (s : Bytes) : Decidable (IsBytes s) := by unfold IsBytes; infer_instance
 
+theorem isBytes_nil : IsBytes [] := fun _ h => nomatch h
+
 theorem IsBytes.tail {b : Nat} {s : Bytes} (h : IsBytes (b :: s)) : IsBytes s :=
   fun x hx => h x (List.mem_cons_of_mem _ hx)
 
@@ -363,5 +365,200 @@ encoder passes through that the decoder interprets). -/
 theorem pctDecode_pctEncode_id {S : List Nat} (hS : SafeSet S = true) (x : Bytes) (hx : IsBytes x)
     (h : 37 ∉ x) : pctDecode (pctEncode S x) = x := by
   rw [pctDecode_pctEncode hS x hx, pctDecode_of_no_pct x h]
+
+/-! ### two encoding passes compose -/
+
+theorem pctEncode_encByte {S : List Nat} (hS : SafeSet S = true) (b : Nat) :
+    pctEncode S (encByte b) = encByte b := by
+  unfold encByte
+  simp only [pctEncode_cons, pctEncode_nil, List.append_nil]
+  rw [encOne_of_false (not_shouldEncode_37 hS),
+    encOne_of_false (not_shouldEncode_hexDigitUpper hS (n := b / 16 % 16) (by omega)),
+    encOne_of_false (not_shouldEncode_hexDigitUpper hS (n := b % 16) (by omega))]
+  rfl
+
+/-- encoding with a smaller set and then with a larger one = encoding once with the larger one
+(`%` and hex digits are in no set, so the escapes of the first pass survive the second). -/
+theorem pctEncode_pctEncode {S0 S1 : List Nat} (hS1 : SafeSet S1 = true)
+    (hsub : ∀ b, shouldEncode S0 b = true → shouldEncode S1 b = true) (x : Bytes) :
+    pctEncode S1 (pctEncode S0 x) = pctEncode S1 x := by
+  induction x with
+  | nil => rfl
+  | cons b r ih =>
+    rw [pctEncode_cons, pctEncode_append, ih, pctEncode_cons]
+    congr 1
+    cases h0 : shouldEncode S0 b with
+    | true => rw [encOne_of_true h0, pctEncode_encByte hS1, encOne_of_true (hsub b h0)]
+    | false => rw [encOne_of_false h0, pctEncode_cons, pctEncode_nil, List.append_nil]
+
+/-! ### splitting commutes with encoding -/
+
+/-- a delimiter: not `%`, not an upper-case hex digit (so it never occurs inside an escape). -/
+def IsDelim (c : Nat) : Prop := c ≠ 37 ∧ ¬(48 ≤ c ∧ c ≤ 57) ∧ ¬(65 ≤ c ∧ c ≤ 70)
+
+theorem not_mem_encByte {c : Nat} (hc : IsDelim c) (b : Nat) : c ∉ encByte b := by
+  intro h; have := mem_encByte h; unfold IsDelim at hc; omega
+
+theorem splitFirst_append_of_not_mem (c : Nat) (p rest : Bytes) (h : c ∉ p) :
+    splitFirst c (p ++ rest) = (p ++ (splitFirst c rest).1, (splitFirst c rest).2) := by
+  induction p with
+  | nil => rfl
+  | cons a p ih =>
+    have ha : a ≠ c := fun e => h (by simp [e])
+    have := ih (fun e => h (List.mem_cons_of_mem _ e))
+    simp only [List.cons_append, splitFirst, beq_iff_eq, ha, if_false, this]
+
+theorem splitAll_append_of_not_mem (c : Nat) (p rest : Bytes) (h : c ∉ p) :
+    splitAll c (p ++ rest) = (p ++ (splitAll c rest).1, (splitAll c rest).2) := by
+  induction p with
+  | nil => rfl
+  | cons a p ih =>
+    have ha : a ≠ c := fun e => h (by simp [e])
+    have := ih (fun e => h (List.mem_cons_of_mem _ e))
+    simp only [List.cons_append, splitAll, beq_iff_eq, ha, if_false, this]
+
+theorem not_mem_encOne {S : List Nat} {c : Nat} (hc : IsDelim c) {b : Nat} (hbc : b ≠ c) :
+    c ∉ encOne S b := by
+  unfold encOne; split
+  · exact not_mem_encByte hc b
+  · simp; exact fun e => hbc e.symm
+
+theorem splitFirst_pctEncode {S : List Nat} {c : Nat} (hc : IsDelim c) (hce : shouldEncode S c = false)
+    (x : Bytes) :
+    splitFirst c (pctEncode S x) =
+      (pctEncode S (splitFirst c x).1, (splitFirst c x).2.map (pctEncode S)) := by
+  induction x with
+  | nil => rfl
+  | cons b r ih =>
+    rw [pctEncode_cons]
+    by_cases hb : b = c
+    · subst hb
+      rw [encOne_of_false hce]
+      simp [splitFirst]
+    · rw [splitFirst_append_of_not_mem _ _ _ (not_mem_encOne hc hb), ih]
+      simp [splitFirst, hb, pctEncode_cons]
+
+theorem splitAll_pctEncode {S : List Nat} {c : Nat} (hc : IsDelim c) (hce : shouldEncode S c = false)
+    (x : Bytes) :
+    splitAll c (pctEncode S x) =
+      (pctEncode S (splitAll c x).1, (splitAll c x).2.map (pctEncode S)) := by
+  induction x with
+  | nil => rfl
+  | cons b r ih =>
+    rw [pctEncode_cons]
+    by_cases hb : b = c
+    · subst hb
+      rw [encOne_of_false hce]
+      simp [splitAll, ih]
+    · rw [splitAll_append_of_not_mem _ _ _ (not_mem_encOne hc hb), ih]
+      simp [splitAll, hb, pctEncode_cons]
+
+theorem pieces_pctEncode {S : List Nat} {c : Nat} (hc : IsDelim c) (hce : shouldEncode S c = false)
+    (x : Bytes) : pieces c (pctEncode S x) = (pieces c x).map (pctEncode S) := by
+  simp [pieces, splitAll_pctEncode hc hce]
+
+theorem isDelim_38 : IsDelim 38 := by unfold IsDelim; omega
+theorem isDelim_61 : IsDelim 61 := by unfold IsDelim; omega
+theorem isDelim_63 : IsDelim 63 := by unfold IsDelim; omega
+theorem isDelim_35 : IsDelim 35 := by unfold IsDelim; omega
+theorem isDelim_43 : IsDelim 43 := by unfold IsDelim; omega
+
+theorem not_shouldEncode_delim {S : List Nat} (hS : SafeSet S = true) {c : Nat}
+    (hc : c = 38 ∨ c = 61 ∨ c = 63) : shouldEncode S c = false := by
+  cases h : shouldEncode S c with
+  | false => rfl
+  | true => have := shouldEncode_props hS h; omega
+
+/-! ### form decoding of a sanitised piece -/
+
+theorem decMap_plus {S : List Nat} (h43 : shouldEncode S 43 = false) : DecMap S plusToSpace := by
+  refine ⟨?_, ?_, ?_, ?_⟩
+  · intro b; unfold plusToSpace; split
+    · rename_i h; simp at h; omega
+    · exact Iff.rfl
+  · intro b; unfold plusToSpace; split
+    · rename_i h; simp at h; subst h; decide
+    · rfl
+  · intro b hb; unfold plusToSpace; split
+    · rename_i h; simp at h; subst h; rw [h43] at hb; cases hb
+    · rfl
+  · intro n hn; unfold plusToSpace; split
+    · rename_i h; simp at h; have := hexDigitUpper_range hn; omega
+    · rfl
+
+/-- `form_urlencoded::decode` does not see the sanitising pass (any set without `+`). -/
+theorem decodeForm_pctEncode {S : List Nat} (hS : SafeSet S = true) (h43 : shouldEncode S 43 = false)
+    (x : Bytes) (hx : IsBytes x) : decodeForm (pctEncode S x) = decodeForm x := by
+  unfold decodeForm pctDecode
+  rw [pctDecode_enc_map_aux hS (decMap_plus h43) x.length x (Nat.le_refl _) hx]
+
+theorem IsBytes_splitFirst {c : Nat} {x : Bytes} (hx : IsBytes x) :
+    IsBytes (splitFirst c x).1 ∧ ∀ r, (splitFirst c x).2 = some r → IsBytes r := by
+  induction x with
+  | nil => exact ⟨isBytes_nil, fun r h => nomatch h⟩
+  | cons b r ih =>
+    have := ih hx.tail
+    by_cases hb : b = c
+    · simp only [splitFirst, hb, beq_self_eq_true, if_true]
+      exact ⟨isBytes_nil, fun r' h => by cases h; exact hx.tail⟩
+    · simp only [splitFirst, beq_iff_eq, hb, if_false]
+      refine ⟨?_, this.2⟩
+      intro y hy
+      rcases List.mem_cons.mp hy with h | h
+      · subst h; exact hx.head
+      · exact this.1 y h
+
+theorem parsePair_pctEncode {S : List Nat} (hS : SafeSet S = true) (h43 : shouldEncode S 43 = false)
+    (seg : Bytes) (hx : IsBytes seg) : parsePair (pctEncode S seg) = parsePair seg := by
+  unfold parsePair
+  rw [splitFirst_pctEncode isDelim_61 (not_shouldEncode_delim hS (by omega))]
+  have hb := IsBytes_splitFirst (c := 61) hx
+  simp only
+  rw [decodeForm_pctEncode hS h43 _ hb.1]
+  cases h2 : (splitFirst 61 seg).2 with
+  | none => rfl
+  | some r =>
+    simp only [Option.map_some, Option.getD_some]
+    rw [decodeForm_pctEncode hS h43 _ (hb.2 r h2)]
+
+theorem IsBytes_splitAll {c : Nat} {x : Bytes} (hx : IsBytes x) :
+    IsBytes (splitAll c x).1 ∧ ∀ r ∈ (splitAll c x).2, IsBytes r := by
+  induction x with
+  | nil => exact ⟨isBytes_nil, fun r h => nomatch h⟩
+  | cons b r ih =>
+    have := ih hx.tail
+    by_cases hb : b = c
+    · simp only [splitAll, hb, beq_self_eq_true, if_true]
+      refine ⟨isBytes_nil, ?_⟩
+      intro r' h
+      rcases List.mem_cons.mp h with h | h
+      · subst h; exact this.1
+      · exact this.2 r' h
+    · simp only [splitAll, beq_iff_eq, hb, if_false]
+      refine ⟨?_, this.2⟩
+      intro y hy
+      rcases List.mem_cons.mp hy with h | h
+      · subst h; exact hx.head
+      · exact this.1 y h
+
+theorem IsBytes_pieces {c : Nat} {x : Bytes} (hx : IsBytes x) : ∀ r ∈ pieces c x, IsBytes r := by
+  intro r hr
+  unfold pieces at hr
+  rcases List.mem_cons.mp hr with h | h
+  · subst h; exact (IsBytes_splitAll hx).1
+  · exact (IsBytes_splitAll hx).2 r h
+
+/-- **the request side parses the sanitised query to the same parameters as the rule side parses
+the raw query.** -/
+theorem parseQuery_pctEncode {S : List Nat} (hS : SafeSet S = true) (h43 : shouldEncode S 43 = false)
+    (q : Bytes) (hq : IsBytes q) : parseQuery (pctEncode S q) = parseQuery q := by
+  unfold parseQuery
+  rw [pieces_pctEncode isDelim_38 (not_shouldEncode_delim hS (by omega)), List.filter_map, List.map_map]
+  have : ((fun s : Bytes => !s.isEmpty) ∘ pctEncode S) = (fun s : Bytes => !s.isEmpty) := by
+    funext s; simp [pctEncode_isEmpty]
+  rw [this]
+  apply List.map_congr_left
+  intro seg hseg
+  exact parsePair_pctEncode hS h43 seg (IsBytes_pieces hq seg (List.mem_filter.mp hseg).1)
 
 end Rio.Url
